@@ -52,13 +52,16 @@ func oneLine(s string, n int) string {
 }
 
 func activeKnown(ids []string) []string {
-	if ignoreKnown {
-		return nil
-	}
 	var out []string
 	seen := map[string]bool{}
 	for _, id := range ids {
-		if !seen[id] && harness.Known(id) {
+		// while the witness of finding W is evaluated, W's own class is off and every other
+		// listed class is on: a witness shows its own root cause, not a neighbour's
+		active := harness.Known(id)
+		if witnessFor != "" {
+			active = id != witnessFor && harness.KnownListed(id)
+		}
+		if !seen[id] && active {
 			out = append(out, id)
 		}
 		seen[id] = true
@@ -293,14 +296,19 @@ func judgeMode(c callCase, e callExpect, o modeObs, try bool) string {
 		return fmt.Sprintf("%s: the error went past the script's try/catch and came out of Run: %s", mode, oneLine(o.ErrMsg, 200))
 	}
 	failed, loud, what := false, false, ""
+	own := false // an argument's own toString throws: the script's own Error counts as the loud failure
+	for _, a := range c.Args {
+		own = own || jvThrows(a)
+	}
 	if try {
 		var class, msg string
 		loud, class, msg = loudTry(o.Out)
 		failed = class != ""
 		what = class + ": " + oneLine(msg, 160)
+		loud = loud || (class == "Error" && own)
 	} else {
 		failed = o.ErrName != ""
-		loud = o.ErrName == "TypeError" || o.ErrName == "RangeError"
+		loud = o.ErrName == "TypeError" || o.ErrName == "RangeError" || (o.ErrName == "Error" && own)
 		what = oneLine(o.ErrMsg, 200)
 	}
 	if strings.Contains(o.Out, fmt.Sprint(m16.HidSentinel)) {
